@@ -61,7 +61,21 @@ inductive Rewrite where
   | ip6 (v : String)
   | cname (t : Host)
   | rcode (rc : Nat)      -- a non-NOERROR code
+  /-- `$dnsrewrite=NOERROR;<TYPE>;<value>` for the remaining record types (TXT, MX, PTR, SRV, HTTPS,
+  SVCB); the bare keyword `NOERROR` is `other 0 ""`.  The value is opaque text. -/
+  | other (t : QType) (v : String)
 deriving DecidableEq, Repr
+
+def qtPTR : QType := 12
+def qtMX : QType := 15
+def qtTXT : QType := 16
+def qtSRV : QType := 33
+def qtSVCB : QType := 64
+
+/-- The record types `filterDNSRewriteResponse` can synthesise besides A/AAAA; a value of any other
+type is skipped. -/
+def synthesizable (t : QType) : Bool :=
+  t == qtPTR || t == qtTXT || t == qtMX || t == qtHTTPS || t == qtSVCB || t == qtSRV
 
 inductive Rule where
   /-- `||dom^`, `@@||dom^`, optionally `$dnstype=…` -/
@@ -164,6 +178,7 @@ def rewriteVals (rws : List Rewrite) (qt : QType) : List String :=
   rws.filterMap fun
     | .ip4 v => if qt == qtA then some v else Option.none
     | .ip6 v => if qt == qtAAAA then some v else Option.none
+    | .other t v => if qt == t && synthesizable t then some v else Option.none
     | _ => Option.none
 
 def processRewrites (host : Host) (qt : QType) (rws : List Rewrite) (id : ListId) : Verdict :=
@@ -275,6 +290,8 @@ inductive Ans where
   | a (ip : Host)
   | aaaa (ip : Host)
   | cname (t : Host)
+  /-- an HTTPS record: its `ipv4hint`/`ipv6hint` addresses in record order -/
+  | https (hints : List Host)
   | other
 deriving DecidableEq, Repr
 
@@ -287,6 +304,7 @@ def answerVerdict (c : Cfg) : Ans → Verdict
   | .a ip => combined c.respSources ip qtA
   | .aaaa ip => combined c.respSources ip qtAAAA
   | .cname t => combined c.respSources t qtCNAME
+  | .https hints => firstSome (hints.map fun h => combined c.respSources h qtHTTPS)
   | .other => .none
 
 /-- `composite.Filter.FilterResponse`: the first answer with a verdict decides. -/
@@ -302,6 +320,8 @@ structure RR where
   ttl : Nat
   /-- provenance: `true` = obtained from upstream -/
   up : Bool
+  /-- the address hints of an HTTPS record, in record order -/
+  hints : List Host := []
 deriving DecidableEq, Repr
 
 structure Msg where
@@ -357,6 +377,7 @@ def ansOf (r : RR) : Ans :=
   if r.typ == qtA then .a (r.val.splitOn ".")
   else if r.typ == qtAAAA then .aaaa (r.val.splitOn ".")
   else if r.typ == qtCNAME then .cname (r.val.splitOn ".")
+  else if r.typ == qtHTTPS then .https r.hints
   else .other
 
 /-- Profile/device switches of `Middleware.filter`. -/
@@ -421,7 +442,74 @@ def serveUnfixed (e : Env) (host : Host) (qt : QType) : Msg := serveWith id e ho
 
 /-! ## `filterstorage.Default.ForConfig`: from the configured switches to the composite filter -/
 
-/-- What the filter storage holds (after a refresh). -/
+/-! ### The pause schedule: `filter.ConfigSchedule.Contains` -/
+
+/-- One period of a time zone: the offset `off` (seconds east of UTC) is in force for the instants
+`start ≤ u < stop` (Unix seconds). -/
+structure Period where
+  start : Int
+  stop : Int
+  off : Int
+deriving Repr, DecidableEq
+
+/-- A `time.Location`: its periods, and the offset that is in force (without bounds) where no listed
+period applies — a fixed-offset zone has no periods at all. -/
+structure Zone where
+  periods : List Period := []
+  base : Int := 0
+deriving Repr
+
+def Zone.find (z : Zone) (u : Int) : Option Period :=
+  z.periods.find? fun p => decide (p.start ≤ u) && decide (u < p.stop)
+
+/-- Offset in force at the instant `u` (`Location.lookup`). -/
+def Zone.off (z : Zone) (u : Int) : Int :=
+  match z.find u with
+  | some p => p.off
+  | Option.none => z.base
+
+/-- `time.Date(y, m, d, 0, 0, 0, 0, loc)` as Go computes it, for the civil day whose midnight read as
+UTC is `lu`: look the *local* reading up as if it were an instant, subtract that period's offset, and
+if the result falls outside that period use the offset in force at the result instead. -/
+def goMidnight (z : Zone) (lu : Int) : Int :=
+  match z.find lu with
+  | some p =>
+    if p.off == 0 then lu
+    else
+      let utc := lu - p.off
+      if decide (utc < p.start) || decide (utc ≥ p.stop) then lu - z.off utc else lu - p.off
+  | Option.none => lu - z.base
+
+/-- `filter.DayInterval` in minutes: inclusive start, exclusive end. -/
+structure DayIv where
+  start : Nat
+  stop : Nat
+deriving Repr, DecidableEq
+
+/-- `filter.ConfigSchedule`: one optional interval per weekday (index 0 = Sunday) and the zone. -/
+structure Sched where
+  week : List (Option DayIv)
+  zone : Zone
+deriving Repr
+
+def secPerDay : Int := 86400
+
+/-- `ConfigSchedule.Contains` at the instant `t` (Unix seconds): convert to the zone, take that civil
+day's interval (none or the zero interval: not contained), build local midnight with `time.Date`, add
+the minutes as *elapsed* time, compare `start ≤ t < end`. -/
+def Sched.contains (s : Sched) (t : Int) : Bool :=
+  let lt := t + s.zone.off t
+  let dayNo := lt / secPerDay
+  let wd := ((dayNo + 4) % 7).toNat
+  match (s.week.getD wd Option.none) with
+  | Option.none => false
+  | some iv =>
+    if iv.start == 0 && iv.stop == 0 then false
+    else
+      let mid := goMidnight s.zone (dayNo * secPerDay)
+      decide (mid + (iv.start : Int) * 60 ≤ t) && decide (t < mid + (iv.stop : Int) * 60)
+
+/-- What the filter storage holds (after a refresh); `now` is what its clock says. -/
 structure Storage where
   lists : List (Nat × List Rule) := []
   svcs : List (Nat × List Rule) := []
@@ -430,6 +518,7 @@ structure Storage where
   newReg : HashFilter := { hosts := [], repl := [] }
   genSS : List Rule := []
   ytSS : List Rule := []
+  now : Int := 0
 deriving Repr
 
 /-- `filter.ConfigClient` / `filter.ConfigGroup` (a group has no custom part: `isClient = false`). -/
@@ -438,8 +527,8 @@ structure PCfg where
   customOn : Bool := false
   customRules : List Rule := []
   parentalOn : Bool := false
-  /-- the pause schedule contains the current time -/
-  paused : Bool := false
+  /-- the pause schedule of parental control, if any -/
+  pause : Option Sched := Option.none
   adultOn : Bool := false
   gssOn : Bool := false
   yssOn : Bool := false
@@ -451,6 +540,12 @@ structure PCfg where
   nrdOn : Bool := false
 deriving Repr
 
+/-- `pause != nil && pause.Contains(s.clock.Now())`. -/
+def PCfg.paused (p : PCfg) (now : Int) : Bool :=
+  match p.pause with
+  | some s => s.contains now
+  | Option.none => false
+
 /-- Known IDs in configured order; unknown IDs are skipped (`setRuleLists`, `serviceblock.RuleLists`). -/
 def pickKnown (tbl : List (Nat × List Rule)) (ids : List Nat) : List (Nat × List Rule) :=
   ids.filterMap fun i => (tbl.lookup i).map fun rs => (i, rs)
@@ -459,7 +554,7 @@ def onlyIf {α : Type} (b : Bool) (a : α) : Option α := if b then some a else 
 
 /-- `forClient` / `forGroup`: `setParental`, `setRuleLists`, `setSafeBrowsing`, `custom.Get`. -/
 def assemble (st : Storage) (p : PCfg) : Cfg :=
-  let par := p.parentalOn && !p.paused
+  let par := p.parentalOn && !p.paused st.now
   { custom := if p.isClient && p.customOn && !p.customRules.isEmpty then some p.customRules else Option.none
     lists := if p.ruleListOn then pickKnown st.lists p.listIds else []
     svcs := if par then pickKnown st.svcs p.svcIds else []
@@ -472,11 +567,12 @@ def assemble (st : Storage) (p : PCfg) : Cfg :=
 /-! ## Whose message constructor: `ratelimitmw.newRequestInfo` -/
 
 /-- A profile as far as this property looks at it.  `ttl` is an integer because a negative
-`FilteredResponseTTL` makes `dnsmsg.NewConstructor` fail, in which case the server's constructor
-stays in place. -/
+`FilteredResponseTTL` makes `dnsmsg.NewConstructor` fail, in which case — as for a nil blocking mode —
+the server's constructor stays in place. -/
 structure Profile where
   conf : PCfg
-  mode : Mode
+  /-- `none` = a nil `BlockingMode`, the other way `NewConstructor` fails -/
+  mode : Option Mode
   ttl : Int
   filteringOn : Bool
   devFilteringOn : Bool
@@ -493,7 +589,10 @@ deriving Repr
 /-- The message constructor of a request: the profile's own when there is a profile (and a
 constructor can be made from it), the server's otherwise. -/
 def ctorOf (srv : Server) : Option Profile → Mode × Nat
-  | some p => if p.ttl < 0 then (srv.mode, srv.ttl) else (p.mode, p.ttl.toNat)
+  | some p =>
+    match p.mode with
+    | some m => if p.ttl < 0 then (srv.mode, srv.ttl) else (m, p.ttl.toNat)
+    | Option.none => (srv.mode, srv.ttl)
   | Option.none => (srv.mode, srv.ttl)
 
 def envOf (srv : Server) (who : Option Profile) (upstream : Host → QType → Msg) : Env :=
